@@ -509,6 +509,14 @@ class World(object):
                          fakepika.BasicProperties(message_id=message_id or ("start-" + name), content_type="application/json", delivery_mode=2))
         return exec_arn
 
+    def start_minimal_event(self, sm_arn, name, data):
+        """The least a start event may carry: the data, the state machine's id and a name for the execution (everything else of the context object is
+        filled in by the engine)."""
+        ch = self.client_channel()
+        ch.basic_publish("", EVENTQ + self.suffix, json.dumps({"data": data, "context": {"StateMachine": {"Id": sm_arn}, "Execution": {"Name": name}}}),
+                         fakepika.BasicProperties(message_id="start-" + name, content_type="application/json", delivery_mode=2))
+        return sm_arn.replace(":stateMachine:", ":execution:") + ":" + name
+
     def app(self, iid=None, flavour="asyncio"):
         iid = iid or next(iter(self.engines))
         key = (iid, flavour)
